@@ -27,7 +27,8 @@ RULE = ("cases = (quantized_bits | quantized_linear, bits 2..8, integer 0..3 "
         "(<= non-sign bits), alpha 'auto'/'auto_po2', scale_axis None/int"
         "(/list for quantized_bits), elements_per_scale and min/max_po2_exponent "
         "(quantized_bits+auto_po2), post_training_scale (quantized_bits), "
-        "keep_negative/symmetric (quantized_linear)) x (float32 tensor of rank "
+        "use_ste, keep_negative/symmetric (quantized_linear), use_variables/"
+        "var_name) x (float32 tensor of rank "
         "1..4, <= 96 (thorough: 256) elements, built group by group: normal / all-zero / single "
         "non-zero / constant / sign-aligned / 2^-6 and 2^+6 relative "
         "magnitude; non-zero channel maxima within 2^-21..2^20) drawn by "
@@ -38,7 +39,12 @@ RULE = ("cases = (quantized_bits | quantized_linear, bits 2..8, integer 0..3 "
 ASSUMPTIONS = [
     "checks run under TF_USE_LEGACY_KERAS=1 (tf_keras), float32, eager, "
     "K.epsilon()==1e-7, channels_last; use_stochastic_rounding=False, "
-    "qnoise_factor=1, use_ste=True, use_variables=False",
+    "qnoise_factor=1 (default or explicit; other factors are C07's); "
+    "quantized_bits use_ste in {True, False} (with qnoise_factor 1 the "
+    "non-STE form (1-f)*x + f*xq is exactly xq), symmetric in {default,0,1} "
+    "(forced to 1 by 'auto*'); use_variables/var_name in both classes "
+    "(qnoise_factor becomes a tf.Variable at the first call; primed and "
+    "follow-up calls reuse the built quantizer)",
     "quantized_bits is generated with keep_negative=True only (its 'auto' "
     "path ignores keep_negative); scale_axis entries non-negative/ascending",
     "power-of-two scales: y/(scale*2^(integer-ub)) must be an integer exactly; "
@@ -73,7 +79,9 @@ REQUIRED_LABELS = {
         "rank1", "rank2", "rank3", "rank4", "axis_int", "axis_list", "eps",
         "po2_bounds", "bounds_active", "pts", "zero_group", "top_code_checked",
         "equiv_checked:auto", "equiv_checked:auto_po2", "clipped", "primed",
-        "keep_negative=False", "symmetric=0"]
+        "keep_negative=False", "symmetric=0", "use_ste=False",
+        "use_ste=False+pts", "use_variables:quantized_bits",
+        "use_variables:quantized_linear"]
     for t in ("quick", "thorough")}
 
 EPS = R.EPS
@@ -99,6 +107,10 @@ def _base(cfg):
   sig = {"cls": cfg["cls"], "alpha": kw["alpha"]}
   if kw.get("post_training_scale") is not None:
     sig["frozen"] = True
+  if kw.get("use_ste") is False:
+    sig["use_ste"] = False
+  if kw.get("use_variables"):
+    sig["use_variables"] = True
   return sig
 
 
@@ -117,6 +129,12 @@ def _labels(case):
     labs.append("keep_negative=False")
   if kw.get("symmetric") == 0:
     labs.append("symmetric=0")
+  if kw.get("use_ste") is False:
+    labs.append("use_ste=False")
+    if kw.get("post_training_scale") is not None:
+      labs.append("use_ste=False+pts")
+  if kw.get("use_variables"):
+    labs.append("use_variables:" + cfg["cls"])
   return labs
 
 
@@ -406,6 +424,11 @@ def edge_cases():
         for shape, xs in (([14], sp), ([7, 2], sp), ([2, 7], sp), ([12], z),
                           ([3, 4], z), ([6, 2], onez), ([2, 3, 2], onez)):
           cases.append({"cfg": {"cls": cls, "kw": dict(kw)}, "shape": shape, "xs": xs})
+          if cls == "quantized_bits" and bits == 4:
+            cases.append({"cfg": {"cls": cls, "kw": dict(kw, use_ste=False)},
+                          "shape": shape, "xs": xs})
+            cases.append({"cfg": {"cls": cls, "kw": dict(kw, use_variables=True)},
+                          "shape": shape, "xs": xs, "prime": True})
   return cases
 
 
